@@ -32,6 +32,14 @@ def _erase(D, p):
     return D
 
 
+def _unknown(D):
+    if isinstance(D, tuple):
+        if len(D) == 4 and D[0] == "sub" and D[2] is None:
+            return True
+        return any(_unknown(x) for x in D)
+    return False
+
+
 def _mentions(D, p):
     if isinstance(D, tuple):
         if D and D[0] == "p" and D[1] == p:
@@ -59,8 +67,8 @@ def conv(facts, fn, p, depth=0):
                     pass
                 continue
             dst = d.slice_of(t[2][0])
-            if dst is None:
-                ok = False
+            if dst is None or _unknown(dst) or _unknown(src):
+                ok = False      # a range the describer could not pin down: this sibling is undecided
                 continue
             try:
                 out.add((_erase(dst, p), _erase(src, p)))
